@@ -101,6 +101,10 @@ def run_symgo(hdir, cfg, tcfg, out):
         if k in tcfg:
             cmd += ["-" + k, str(tcfg[k])]
     r = subprocess.run(cmd, capture_output=True, text=True)
+    try:
+        open(out + ".stderr", "w").write(r.stderr or "")
+    except OSError:
+        pass
     return r
 
 
